@@ -1,6 +1,6 @@
 (** * C01 — orders execute by strict price-time priority; equality with a reference engine *)
 From Bourse Require Import Model.Types Model.Map Model.Side Model.Book Model.Obs Spec.RefBook
-  Proofs.Ledger Proofs.Refine Proofs.RefProps Proofs.Volumes Proofs.Reload.
+  Proofs.Ledger Proofs.Refine Proofs.RefProps Proofs.Volumes Proofs.Reload Proofs.Progress.
 
 (** Refinement, one operation: under the queue invariant every successful
     operation of the model (create / place / create-and-place / cancel / modify /
@@ -37,6 +37,26 @@ Proof.
   intros t0 tick tr s0 ops s xs H0 Hu H. destruct (InvQ_new _ _ _ _ H0) as [_ E]. rewrite <- E.
   eapply run_inv_all; [eapply Inv_new; eassumption | eassumption | eassumption].
 Qed.
+
+(** Progress: the refinement theorems speak of successful steps; this one says
+    when a step succeeds. In a state satisfying the invariant a request whose ids
+    exist never aborts - no [unwrap] on a missing price level, no unsigned
+    underflow of a volume or a count, and the matching loop ends within its fuel
+    ([do_match_ok]) - as long as the u64 clock and queue stamps are below their
+    maximum ([clock_ok]). Over a history the only aborts are therefore ids that do
+    not exist and arithmetic overflow (u32 volumes, [bounded]; u64 stamps):
+    [valid_run] says exactly that these do not occur along the way. *)
+Theorem c01_progress_step : forall s o,
+  Inv s -> clock_ok s -> op_u32 o -> op_ids s o -> exists s' x, step_raw s o = Ok (s', x).
+Proof. exact step_raw_progress. Qed.
+
+Theorem c01_progress_history : forall ops s,
+  Inv s -> valid_run s ops -> exists s' xs, run_outs s ops = Ok (s', xs).
+Proof. exact run_progress. Qed.
+
+Theorem c01_matching_loop_terminates : forall sd s a,
+  loop_inv sd s -> exists s' a', do_match sd s a = Ok (s', a').
+Proof. exact do_match_ok. Qed.
 
 (** The matching loop is the reference walk over the opposite queue. *)
 Theorem c01_matching_is_reference_walk : forall sd fuel s agg s' agg',
@@ -90,6 +110,9 @@ Proof. vm_compute. reflexivity. Qed.
 Print Assumptions c01_refines_step.
 Print Assumptions c01_refines_history.
 Print Assumptions c01_refines_history_with_reloads.
+Print Assumptions c01_progress_step.
+Print Assumptions c01_progress_history.
+Print Assumptions c01_matching_loop_terminates.
 Print Assumptions c01_matching_is_reference_walk.
 Print Assumptions c01_ref_consumes_prefix.
 Print Assumptions c01_ref_stops_when_exhausted_or_limit.
